@@ -26,8 +26,12 @@
    registrations (every pInvalidator of a register, in order), the next fresh id; [declared n] the (name, kind)
    pairs n declares; [rb_tags] Cachable, PollingTime, pInvalidator; [doc_nodes ns] / [doc_invs ns] the nodes /
    registrations expected for the document with top-level nodes ns; [find_node name l] first node of l with
-   that name. *)
-From Cam Require Import Outcome GenApiParse P_C17 P_C17b.
+   that name.
+   Third part (P_C17c.v): [texts ch] the text nodes of a child list in order; [only_noise l] l consists of
+   comments and processing instructions only; [scattered pieces gaps tail] the pieces of a text with the noise
+   [gaps] before each piece and [tail] at the end; [norm c] the child list c with every comment and processing
+   instruction removed and adjacent text nodes glued, at every depth. *)
+From Cam Require Import Outcome GenApiParse P_C17 P_C17b P_C17c.
 From Coq Require Import Permutation.
 
 (* decimal and 0x / 0X hexadecimal literals (both digit cases) of every value of the type convert back to the
@@ -173,3 +177,34 @@ Theorem C17_document_example :
     doc_invs example_nodes = [([89], [69; 48]); ([88], [69; 49])].
 Proof. exact document_example. Qed.
 Print Assumptions C17_document_example.
+
+(* TextView::view (after fb880c0): the text of an element is the concatenation of ALL its text nodes, however many,
+   whatever comments, processing instructions or elements stand between, before or after them *)
+Theorem C17_text_view_all :
+  (forall ch, text_of ch = List.concat (texts ch)) /\
+  (forall pieces gaps tail, Forall only_noise gaps -> only_noise tail ->
+     text_of (scattered pieces gaps tail) = List.concat pieces).
+Proof. exact (conj text_of_all text_of_scattered). Qed.
+Print Assumptions C17_text_view_all.
+
+(* comments and processing instructions are ignored everywhere: a document whose normal form builds, builds to the
+   same description and store as it stands; in particular a rendered document with comments / processing
+   instructions inserted anywhere (between elements, at any positions inside element texts - any number of them -,
+   inside nested elements) builds to the expected store of C17_document *)
+Theorem C17_comments_ignored :
+  (forall fixed t a ch r, parse_doc fixed (Elem t a (norm ch)) = Ok r -> parse_doc fixed (Elem t a ch) = Ok r) /\
+  (forall attrs rd ns ch, norm ch = map render ns ->
+     parse_regdesc attrs = Ok rd -> Forall wf_node ns -> NoDup (map nd_name (doc_nodes ns)) ->
+     parse_doc true (Elem T_RegisterDescription attrs ch) = Ok (rd, mkStore (doc_nodes ns) (doc_invs ns))).
+Proof. exact (conj comments_ignored comments_ignored_document). Qed.
+Print Assumptions C17_comments_ignored.
+
+(* non-vacuity: <Value>1<!--a-->2<?b?>3<!----></Value> inside an Integer surrounded by noise is the declaration
+   Value = 123 *)
+Theorem C17_comments_ignored_example :
+  norm interrupted_example = map render [SnInteger interrupted_integer] /\
+  Forall wf_node [SnInteger interrupted_integer] /\
+  NoDup (map nd_name (doc_nodes [SnInteger interrupted_integer])) /\
+  i_value (n_integer interrupted_integer) = VkValue 123.
+Proof. exact interrupted_example_ok. Qed.
+Print Assumptions C17_comments_ignored_example.
